@@ -4,6 +4,7 @@ import (
 	"fmt"
 	"go/token"
 	"go/types"
+	"sort"
 	"strings"
 
 	"golang.org/x/tools/go/ssa"
@@ -649,4 +650,55 @@ func runC03(c *engine.Ctx) {
 
 	// ---- R7 wrapper stacks (shared with C01.R1 / C05.R5) ----
 	checkStacks(c, "R7")
+
+	// ---- R10 both ends get the configured packet size from a legacy file too (shared with C18.R14) ----
+	checkLegacyConversion(c, "R10")
+
+	// ---- R11 a failed write retires the work connection ----
+	c.Rule("R11", "server udp proxy: the goroutine that writes user datagrams to the work connection closes that connection when a write fails — only the reader asks for a replacement, and it notices nothing as long as its own reads succeed")
+	n11 := 0
+	if run := fn(c, "server/proxy.UDPProxy.Run"); run != nil {
+		writeMsg := funcObj(c, "pkg/msg", "WriteMsg")
+		cands := allAnon(run)
+		if ut := p.Named("server/proxy", "UDPProxy"); ut != nil { // the sender may be a method instead of a closure
+			for _, mf := range methodsOf(p, ut) {
+				if mf != run {
+					cands = append(cands, mf)
+					cands = append(cands, allAnon(mf)...)
+				}
+			}
+		}
+		sort.Slice(cands, func(i, j int) bool { return p.FuncName(cands[i]) < p.FuncName(cands[j]) })
+		for _, g := range cands {
+			g := g
+			for _, w := range engine.CallsTo(g, writeMsg) {
+				connArg := engine.Unwrap(engine.CallArgs(w)[0])
+				if _, isParam := connArg.(*ssa.Parameter); !isParam {
+					continue // not the sender goroutine's own connection
+				}
+				n11++
+				wv := w.Value()
+				c.AllPaths(fmt.Sprintf("%s>write-error-closes", p.FuncName(g)), engine.PathCheck{Fn: g, From: w, KeepLoopFacts: true,
+					Sink: func(in ssa.Instruction) bool { return engine.IsReturn(in) || in == w.(ssa.Instruction) },
+					Event: func(in ssa.Instruction) string {
+						if cc, ok := in.(ssa.CallInstruction); ok {
+							if o := engine.CalleeObj(cc); o != nil && o.Name() == "Close" {
+								if a := engine.CallArgs(cc); len(a) > 0 && engine.SameValue(engine.Unwrap(a[0]), connArg) {
+									return "close"
+								}
+							}
+						}
+						return ""
+					},
+					Pred: func(st *engine.PathState) string {
+						isNil, known := st.IsNil(func(v ssa.Value) bool { return wv != nil && v == wv })
+						if known && !isNil && !st.HasEvent("close") {
+							return "the write to the work connection failed and the connection is left open: the reader keeps it alive, it is never replaced and every later datagram towards the backend is dropped"
+						}
+						return ""
+					}}, "write error ⇒ work connection closed")
+			}
+		}
+	}
+	c.Floor(n11, 1)
 }
